@@ -4,7 +4,7 @@
 use std::cmp::Ordering;
 use std::hash::{Hash, Hasher};
 
-use crate::temporal::interval::verif_kani_interval::from_parts;
+use crate::temporal::verif_kani_interval::from_parts;
 use crate::{Date, SqlValue, Time, Timestamp};
 
 // ------------------------------------------------------------------------------------------
@@ -100,16 +100,16 @@ pub(crate) fn any_stringy() -> SqlValue {
 // EVERY Hasher (what HashMap/HashSet/IndexSet rely on).
 // ------------------------------------------------------------------------------------------
 pub(crate) struct Rec {
-    pub buf: [u8; 48],
+    pub buf: [u8; 32],
     pub len: usize,
     pub overflow: bool,
 }
 impl Rec {
-    pub fn new() -> Self { Rec { buf: [0; 48], len: 0, overflow: false } }
+    pub fn new() -> Self { Rec { buf: [0; 32], len: 0, overflow: false } }
     pub fn same(&self, o: &Rec) -> bool {
         if self.overflow || o.overflow || self.len != o.len { return false; }
         let mut i = 0;
-        while i < 48 {
+        while i < 32 {
             if i < self.len && self.buf[i] != o.buf[i] { return false; }
             i += 1;
         }
@@ -121,138 +121,193 @@ impl Hasher for Rec {
     fn write(&mut self, bytes: &[u8]) {
         let mut i = 0;
         while i < bytes.len() {
-            if self.len < 48 { self.buf[self.len] = bytes[i]; self.len += 1; } else { self.overflow = true; }
+            if self.len < 32 { self.buf[self.len] = bytes[i]; self.len += 1; } else { self.overflow = true; }
             i += 1;
         }
     }
 }
-fn stream(v: &SqlValue) -> Rec { let mut r = Rec::new(); v.hash(&mut r); r }
+pub(crate) fn stream(v: &SqlValue) -> Rec { let mut r = Rec::new(); v.hash(&mut r); r }
 
-// ------------------------------------------------------------------------------------------
-// T-eq
-// ------------------------------------------------------------------------------------------
-#[kani::proof]
-fn t_eq_reflexive_scalar() { let a = any_scalar(); assert!(a == a); }
 
-#[kani::proof]
-fn t_eq_symmetric_scalar() { let a = any_scalar(); let b = any_scalar(); assert!((a == b) == (b == a)); }
-
-#[kani::proof]
-fn t_eq_transitive_scalar() {
-    let a = any_scalar(); let b = any_scalar(); let c = any_scalar();
-    if a == b && b == c { assert!(a == c); }
-}
-
-#[kani::proof]
-fn t_eq_laws_string_b2() {
-    let a = any_stringy(); let b = any_stringy(); let c = any_stringy();
-    assert!(a == a);
-    assert!((a == b) == (b == a));
-    if a == b && b == c { assert!(a == c); }
-    std::mem::forget(a); std::mem::forget(b); std::mem::forget(c);
-}
-
-#[kani::proof]
-fn t_eq_string_vs_scalar_never_equal() {
-    let a = any_stringy(); let b = any_scalar();
-    assert!(!(a == b) && !(b == a));
-    std::mem::forget(a);
-}
-
-// ------------------------------------------------------------------------------------------
-// T-ord
-// ------------------------------------------------------------------------------------------
-#[kani::proof]
-fn t_ord_antisymmetric_scalar() {
-    let a = any_scalar(); let b = any_scalar();
-    assert!(a.cmp(&b) == b.cmp(&a).reverse());
-}
-
-#[kani::proof]
-fn t_ord_transitive_scalar() {
-    let a = any_scalar(); let b = any_scalar(); let c = any_scalar();
-    if a.cmp(&b) != Ordering::Greater && b.cmp(&c) != Ordering::Greater {
-        assert!(a.cmp(&c) != Ordering::Greater);
-    }
-    if a.cmp(&b) == Ordering::Equal && b.cmp(&c) == Ordering::Equal {
-        assert!(a.cmp(&c) == Ordering::Equal);
+/// value of variant `tag` (0..=13 scalar/Null, 14 Character, 15 Varchar) with symbolic payload
+pub(crate) fn value_of(tag: u8) -> SqlValue {
+    match tag {
+        14 => SqlValue::Character(any_short_string()),
+        15 => SqlValue::Varchar(any_short_string()),
+        t => scalar_of(t),
     }
 }
-
-fn both_interval(a: &SqlValue, b: &SqlValue) -> bool {
-    matches!((a, b), (SqlValue::Interval(_), SqlValue::Interval(_)))
+/// fixed representative of each variant (concrete payload)
+pub(crate) fn rep(tag: u8) -> SqlValue {
+    match tag {
+        0 => SqlValue::Integer(0),
+        1 => SqlValue::Smallint(0),
+        2 => SqlValue::Bigint(0),
+        3 => SqlValue::Unsigned(0),
+        4 => SqlValue::Numeric(0.0),
+        5 => SqlValue::Float(0.0),
+        6 => SqlValue::Real(0.0),
+        7 => SqlValue::Double(0.0),
+        8 => SqlValue::Boolean(false),
+        9 => SqlValue::Date(Date { year: 0, month: 0, day: 0 }),
+        10 => SqlValue::Time(Time { hour: 0, minute: 0, second: 0, nanosecond: 0 }),
+        11 => SqlValue::Timestamp(Timestamp { date: Date { year: 0, month: 0, day: 0 }, time: Time { hour: 0, minute: 0, second: 0, nanosecond: 0 } }),
+        12 => SqlValue::Interval(from_parts(0, 0, 0)),
+        13 => SqlValue::Null,
+        14 => SqlValue::Character(String::new()),
+        _ => SqlValue::Varchar(String::new()),
+    }
 }
+pub(crate) const N_TAGS: u8 = 16;
 
-/// "the total sort order agrees with that equality": cmp == Equal <=> eq, both directions.
-/// #main: every pair except Interval x Interval (recorded finding, see KNOWN_FINDINGS.jsonl)
-#[kani::proof]
-fn t_ord_agrees_with_eq_scalar_main() {
-    let a = any_scalar(); let b = any_scalar();
-    kani::assume(!both_interval(&a, &b));
-    assert!((a.cmp(&b) == Ordering::Equal) == (a == b));
+fn forget3(a: SqlValue, b: SqlValue, c: SqlValue) { std::mem::forget(a); std::mem::forget(b); std::mem::forget(c); }
+
+// ------------------------------------------------------------------------------------------
+// Same-variant laws: three values of ONE variant with fully symbolic payloads.
+// The variant split happens outside the solver (one harness per variant); the union is the
+// full domain of same-variant triples.
+// ------------------------------------------------------------------------------------------
+macro_rules! same_variant {
+    ($tag:expr, $eq:ident, $ord:ident, $hash:ident) => {
+        #[kani::proof]
+        fn $eq() {
+            let a = value_of($tag); let b = value_of($tag); let c = value_of($tag);
+            assert!(a == a, "T-eq#reflexive");
+            assert!((a == b) == (b == a), "T-eq#symmetric");
+            if a == b && b == c { assert!(a == c, "T-eq#transitive"); }
+            forget3(a, b, c);
+        }
+        #[kani::proof]
+        fn $ord() {
+            let a = value_of($tag); let b = value_of($tag); let c = value_of($tag);
+            assert!(a.cmp(&b) == b.cmp(&a).reverse(), "T-ord#antisymmetric");
+            if a.cmp(&b) != Ordering::Greater && b.cmp(&c) != Ordering::Greater {
+                assert!(a.cmp(&c) != Ordering::Greater, "T-ord#transitive");
+            }
+            if a == b { assert!(a.cmp(&b) == Ordering::Equal, "T-ord#eq_implies_cmp_equal"); }
+            if $tag != 12 {
+                // Interval x Interval is the recorded finding KF-C21-interval (checked separately)
+                if a.cmp(&b) == Ordering::Equal { assert!(a == b, "T-ord#cmp_equal_implies_eq"); }
+            }
+            forget3(a, b, c);
+        }
+        #[kani::proof]
+        #[kani::unwind(34)]
+        fn $hash() {
+            let a = value_of($tag); let b = value_of($tag);
+            let (sa, sb) = (stream(&a), stream(&b));
+            assert!(!sa.overflow && !sb.overflow, "recording buffer large enough");
+            if a == b { assert!(sa.same(&sb), "T-hash#eq_implies_same_stream"); }
+            std::mem::forget(a); std::mem::forget(b);
+        }
+    };
 }
-/// eq => cmp == Equal holds for intervals too (only the converse is the recorded finding)
+same_variant!(0, t_eq_integer, t_ord_integer, t_hash_integer);
+same_variant!(1, t_eq_smallint, t_ord_smallint, t_hash_smallint);
+same_variant!(2, t_eq_bigint, t_ord_bigint, t_hash_bigint);
+same_variant!(3, t_eq_unsigned, t_ord_unsigned, t_hash_unsigned);
+same_variant!(4, t_eq_numeric, t_ord_numeric, t_hash_numeric);
+same_variant!(5, t_eq_float, t_ord_float, t_hash_float);
+same_variant!(6, t_eq_real, t_ord_real, t_hash_real);
+same_variant!(7, t_eq_double, t_ord_double, t_hash_double);
+same_variant!(8, t_eq_boolean, t_ord_boolean, t_hash_boolean);
+same_variant!(9, t_eq_date, t_ord_date, t_hash_date);
+same_variant!(10, t_eq_time, t_ord_time, t_hash_time);
+same_variant!(11, t_eq_timestamp, t_ord_timestamp, t_hash_timestamp);
+same_variant!(12, t_eq_interval, t_ord_interval, t_hash_interval);
+same_variant!(13, t_eq_null, t_ord_null, t_hash_null);
+same_variant!(14, t_eq_character_b2, t_ord_character_b2, t_hash_character_b2);
+same_variant!(15, t_eq_varchar_b2, t_ord_varchar_b2, t_hash_varchar_b2);
+
+/// #known: the clause excluded above on exactly the excluded class; EXPECTED TO FAIL
+/// (e.g. 1 MONTH vs 30 DAY: cmp == Equal, eq == false)
 #[kani::proof]
-fn t_ord_eq_implies_cmp_equal_interval() {
+fn t_ord_interval_cmp_equal_implies_eq_known() {
     let a = SqlValue::Interval(any_interval()); let b = SqlValue::Interval(any_interval());
-    if a == b { assert!(a.cmp(&b) == Ordering::Equal); }
-}
-/// #known: the original clause on exactly the excluded class; EXPECTED TO FAIL (1 MONTH vs 30 DAY)
-#[kani::proof]
-fn t_ord_agrees_with_eq_interval_known() {
-    let a = SqlValue::Interval(any_interval()); let b = SqlValue::Interval(any_interval());
-    assert!((a.cmp(&b) == Ordering::Equal) == (a == b));
+    if a.cmp(&b) == Ordering::Equal { assert!(a == b, "T-ord#cmp_equal_implies_eq"); }
 }
 
+// ------------------------------------------------------------------------------------------
+// Cross-variant: for values of DIFFERENT variants, eq is false and cmp depends on the two
+// variants only (it equals cmp of the representatives).  Together with the laws on the 16
+// representatives and the same-variant laws this gives the global laws (lemma L-order-compose,
+// proved in Verus: units/L_order_compose.py).
+// ------------------------------------------------------------------------------------------
+macro_rules! cross_variant {
+    ($tag:expr, $name:ident) => {
+        #[kani::proof]
+        fn $name() {
+            let tb: u8 = kani::any();
+            kani::assume(tb < N_TAGS && tb != $tag);
+            let a = value_of($tag); let b = value_of(tb);
+            assert!(!(a == b) && !(b == a), "T-eq#cross_variant_never_equal");
+            assert!(a.cmp(&b) == rep($tag).cmp(&rep(tb)), "T-ord#cross_variant_by_variant_only");
+            assert!(b.cmp(&a) == rep(tb).cmp(&rep($tag)), "T-ord#cross_variant_by_variant_only");
+            std::mem::forget(a); std::mem::forget(b);
+        }
+    };
+}
+cross_variant!(0, t_cross_integer);
+cross_variant!(1, t_cross_smallint);
+cross_variant!(2, t_cross_bigint);
+cross_variant!(3, t_cross_unsigned);
+cross_variant!(4, t_cross_numeric);
+cross_variant!(5, t_cross_float);
+cross_variant!(6, t_cross_real);
+cross_variant!(7, t_cross_double);
+cross_variant!(8, t_cross_boolean);
+cross_variant!(9, t_cross_date);
+cross_variant!(10, t_cross_time);
+cross_variant!(11, t_cross_timestamp);
+cross_variant!(12, t_cross_interval);
+cross_variant!(13, t_cross_null);
+cross_variant!(14, t_cross_character_b2);
+cross_variant!(15, t_cross_varchar_b2);
+
+/// laws on the representatives: a strict total order on the 16 variants
 #[kani::proof]
-fn t_ord_laws_string_b2() {
-    let a = any_stringy(); let b = any_stringy(); let c = any_stringy();
-    assert!(a.cmp(&b) == b.cmp(&a).reverse());
-    if a.cmp(&b) != Ordering::Greater && b.cmp(&c) != Ordering::Greater {
-        assert!(a.cmp(&c) != Ordering::Greater);
+fn t_rep_order_is_strict_total() {
+    let i: u8 = kani::any(); let j: u8 = kani::any(); let k: u8 = kani::any();
+    kani::assume(i < N_TAGS && j < N_TAGS && k < N_TAGS);
+    let (a, b, c) = (rep(i), rep(j), rep(k));
+    assert!(a.cmp(&b) == b.cmp(&a).reverse(), "T-ord#rep_antisymmetric");
+    assert!((a.cmp(&b) == Ordering::Equal) == (i == j), "T-ord#rep_equal_iff_same_variant");
+    if a.cmp(&b) == Ordering::Less && b.cmp(&c) == Ordering::Less {
+        assert!(a.cmp(&c) == Ordering::Less, "T-ord#rep_transitive");
     }
-    assert!((a.cmp(&b) == Ordering::Equal) == (a == b));
-    std::mem::forget(a); std::mem::forget(b); std::mem::forget(c);
-}
-
-#[kani::proof]
-fn t_ord_string_vs_scalar() {
-    let a = any_stringy(); let b = any_scalar();
-    assert!(a.cmp(&b) == b.cmp(&a).reverse());
-    assert!(a.cmp(&b) != Ordering::Equal);
-    std::mem::forget(a);
-}
-
-// ------------------------------------------------------------------------------------------
-// T-hash
-// ------------------------------------------------------------------------------------------
-#[kani::proof]
-fn t_hash_eq_implies_same_stream_scalar() {
-    let a = any_scalar(); let b = any_scalar();
-    if a == b { assert!(stream(&a).same(&stream(&b))); }
-}
-
-#[kani::proof]
-fn t_hash_eq_implies_same_stream_string_b2() {
-    let a = any_stringy(); let b = any_stringy();
-    if a == b { assert!(stream(&a).same(&stream(&b))); }
-    std::mem::forget(a); std::mem::forget(b);
+    forget3(a, b, c);
 }
 
 /// vacuity canary: MUST FAIL (distinct values need not hash alike)
 #[kani::proof]
+#[kani::unwind(34)]
 fn t_canary_must_fail() {
-    let a = any_scalar(); let b = any_scalar();
-    assert!(stream(&a).same(&stream(&b)));
+    let a = value_of(7); let b = value_of(7);
+    assert!(stream(&a).same(&stream(&b)), "canary");
 }
 
 /// reachability of every generator arm (thorough tier)
 #[kani::proof]
 fn t_cover_generator_arms() {
-    let a = any_scalar();
+    let t: u8 = kani::any();
+    kani::assume(t < N_TAGS);
+    let a = value_of(t);
     let t = tag_of(&a);
     kani::cover!(t == 0); kani::cover!(t == 1); kani::cover!(t == 2); kani::cover!(t == 3);
     kani::cover!(t == 4); kani::cover!(t == 5); kani::cover!(t == 6); kani::cover!(t == 7);
     kani::cover!(t == 8); kani::cover!(t == 9); kani::cover!(t == 10); kani::cover!(t == 11);
-    kani::cover!(t == 12); kani::cover!(t == 13);
+    kani::cover!(t == 12); kani::cover!(t == 13); kani::cover!(t == 14); kani::cover!(t == 15);
+    std::mem::forget(a);
+}
+
+/// SqlValue::cmp on two intervals is Interval::cmp (which is induced by a key, see
+/// interval_parts.rs::t_ord_interval_induced_by_key); eq => cmp Equal.
+#[kani::proof]
+fn t_ord_interval_delegates() {
+    let (x, y) = (any_interval(), any_interval());
+    let direct = x.cmp(&y);
+    let a = SqlValue::Interval(x); let b = SqlValue::Interval(y);
+    assert!(a.cmp(&b) == direct, "T-ord#interval_delegates_to_key_order");
+    if a == b { assert!(a.cmp(&b) == Ordering::Equal, "T-ord#eq_implies_cmp_equal"); }
+    std::mem::forget(a); std::mem::forget(b);
 }
